@@ -33,8 +33,6 @@ def _get_a_new_atomic_proposition_for(kripke, formula):
 
 
 def _remove_state_subformulas(kripke, formula, fair_label=None):
-    Lang = sys.modules[formula.__module__]
-
     if isinstance(formula, AtomicProposition):
         return formula
 
@@ -42,6 +40,8 @@ def _remove_state_subformulas(kripke, formula, fair_label=None):
         f_atom = _get_a_new_atomic_proposition_for(kripke, formula)
         for s in _checkQuantifiedFormula(kripke, formula, fair_label):
             kripke.labels(s).add(f_atom)
+
+        Lang = sys.modules[formula.__module__]
 
         return Lang.AtomicProposition(f_atom)
 
@@ -52,7 +52,7 @@ def _remove_state_subformulas(kripke, formula, fair_label=None):
 
         return formula.__class__(*sfs)
 
-    raise TypeError('expected a CTL* state formula, got {}' % (formula))
+    raise TypeError('expected a CTL* state formula, got {}'.format(formula))
 
 
 def _checkQuantifiedFormula(kripke, formula, fair_label=None):
